@@ -118,28 +118,28 @@ Proof.
         -- inversion Hn; subst. left. eauto.
         -- destruct (IW _ _ Hn Hw) as [(rp & A & B) | (c & A & B & C & D)].
            ++ left; eauto.
-           ++ right. exists c. repeat split; auto. lia.
+           ++ right. exists c. repeat split; auto; try lia.
       * intros Hok j rp' Hn. destruct j; simpl in *.
         -- inversion Hn; subst; auto.
         -- eauto.
       * intros j rp Hn Hw. destruct j; simpl in *.
         -- inversion Hn; subst. congruence.
-        -- destruct (IC _ _ Hn Hw) as (c & A & B). exists c. split; auto. lia.
+        -- destruct (IC _ _ Hn Hw) as (c & A & B). exists c. split; auto; try lia.
     + destruct (next_outcome (r_script r)) as [o sc] eqn:N0.
       inversion H; subst. repeat split.
       * simpl. congruence.
       * intros j rp' Hn Hw. destruct j; simpl in *.
         -- inversion Hn; subst. simpl in Hw. right.
-           exists (mkCall i o pay). simpl. repeat split; auto. lia.
+           exists (mkCall i o pay). simpl. repeat split; auto; try lia.
         -- destruct (IW _ _ Hn Hw) as [(rp & A & B) | (c & A & B & C & D)].
            ++ left; eauto.
-           ++ right. exists c. repeat split; auto. lia.
+           ++ right. exists c. repeat split; auto; try lia.
       * intros Hok j rp' Hn. apply andb_true_iff in Hok as [Ho Hok]. destruct j; simpl in *.
         -- inversion Hn; subst; auto.
         -- eauto.
       * intros j rp Hn Hw. destruct j; simpl in *.
-        -- exists (mkCall i o pay). simpl. split; auto. lia.
-        -- destruct (IC _ _ Hn Hw) as (c & A & B). exists c. split; auto. lia.
+        -- exists (mkCall i o pay). simpl. split; auto; try lia.
+        -- destruct (IC _ _ Hn Hw) as (c & A & B). exists c. split; auto; try lia.
 Qed.
 
 (* ------------------------------------------------------------------ shard_bulk *)
@@ -180,8 +180,9 @@ Proof.
   { intros fl0 H0. destruct (send_reps pay 0 (s_reps sh)) as [[rs' calls0] ok0] eqn:E.
     inversion H0; subst. simpl.
     destruct (send_reps_spec _ _ _ _ _ _ E) as (A & B & C & D).
-    repeat split; auto.
-    - intros Hok. apply all_written_nth. simpl. auto. }
+    split; [auto|]. split; [exact B|]. split.
+    - intros Hok. apply all_written_nth. simpl. intros. eapply C; eauto.
+    - right. exact D. }
   destruct (s_open sh) as [|[|] fl] eqn:EO.
   - apply (G []). exact H.
   - inversion H; subst. simpl. repeat split; auto.
@@ -231,8 +232,7 @@ Proof.
         + apply HasOk_app_r. exists v, c. simpl. repeat split; auto.
       - rewrite update_nth_other in Hs by auto. apply HasOk_app_l. eapply Hinv; eauto. }
     destruct ok0.
-    + inversion H; subst. repeat split; auto.
-      * simpl. auto.
+    + inversion H; subst. split; [auto|]. split; [auto|]. split; [simpl; auto|]. split.
       * intros v0 [<-|[]]. reflexivity.
       * intros _. exists i, sh'. split; auto. eapply update_nth_same; eauto.
     + destruct (send_order t pay rest (update ts i sh')) as [[ts'' vs0] ok'] eqn:Er.
@@ -240,10 +240,8 @@ Proof.
       assert (Hnr' : forall s, nr t s = nreps_st (update ts i sh') s).
       { intros s. rewrite Hnr. rewrite !nreps_st_shape. rewrite Hshape. reflexivity. }
       destruct (IH _ _ _ _ _ nr Er Hnr' Hinv') as (A & B & C & D & E).
-      repeat split.
-      * congruence.
-      * rewrite <- app_assoc in B. exact B.
-      * simpl. split; auto.
+      split; [congruence|]. split; [rewrite <- app_assoc in B; exact B|].
+      split; [simpl; split; auto|]. split.
       * intros v0 [<-|Hin]; auto.
       * exact E.
 Qed.
